@@ -441,7 +441,7 @@ inductive Cell
   | time (us : Int)
   | dur (us : Int)
   | dec (n : Int)
-  | dict (s : BStr)
+  | dict (entries : List BStr) (idx : Nat)   -- a dictionary slot: the column's dictionary and this row's index into it
   | list (cs : Cells)
   | map (kvs : CKVs)
   | struct (fs : CFields)
@@ -468,7 +468,7 @@ def bstrLt : BStr → BStr → Bool
 ("10" < "9", the historical ordering the code keeps). -/
 def cellKeyText : Cell → BStr
   | .str _ s => s
-  | .dict s => s
+  | .dict es i => es.getD i []
   | .int _ v => intStr v
   | _ => []
 
@@ -505,7 +505,7 @@ def encodeLeaf : ATy → Val → Except Err Cell
   | .utf8, _ => .error .unmodelled            -- fmt.Sprintf("%v")
   | .largeUtf8, .str x => .ok (.str true x)
   | .largeUtf8, _ => .error .unmodelled
-  | .dict, .str x => .ok (.dict x)
+  | .dict, .str x => .ok (.dict [x] 0)       -- a one-value dictionary builder: entry 0
   | .dict, _ => .error .unmodelled
   | .int t, .int v => .ok (.int t (encodeInt t v))
   | .int _, _ => .error .encode
@@ -683,8 +683,12 @@ def decode (t : GoTy) : Cell → Except Err Val
   | .str _ x => match derefTy t with
     | .prim .str => .ok (.str x)
     | _ => .error .decode
-  | .dict x => match derefTy t with
-    | .prim .str => .ok (.str x)
+  | .dict es i => match derefTy t with
+    -- `dict.Value(c.GetValueIndex(idx))`: the entry the ROW'S INDEX selects, in both the `enum`
+    -- branch and the generic Dictionary branch (an index outside the dictionary panics)
+    | .prim .str => match es[i]? with
+      | some x => .ok (.str x)
+      | none => .error .decode
     | _ => .error .decode
   | .bin _ b => match derefTy t with
     | .bytes => .ok (.bytes b)
